@@ -47,11 +47,27 @@ def is_current(ns, v):
     return cur is v
 
 
+def entry_id(ns, v):
+    """identifier of one value object: entries of a per-usage-pattern dictionary share their id, the key tells them apart"""
+    c = v.modeling_obj_container
+    cur = c.__dict__.get(v.attr_name_in_mod_obj_container) if c is not None else None
+    if isinstance(cur, dict):
+        for k, x in cur.items():
+            if x is v:
+                return f"{v.id}[{k.name}]"
+    return v.id
+
+
 def graph(ns, live):
-    nodes, bad = {}, []
+    nodes, bad, tnodes = {}, [], {}
     for v in held_values(ns, live):
         nid = v.id
         node = nodes.setdefault(nid, {"anc": set(), "chld": set()})
+        tnode = tnodes.setdefault(entry_id(ns, v), {"anc": set(), "chld": set()})
+        for kind, lst in (("anc", v.direct_ancestors_with_id), ("chld", v.direct_children_with_id)):
+            for x in lst:
+                if is_current(ns, x):
+                    tnode[kind].add(entry_id(ns, x))
         for kind, lst in (("anc", v.direct_ancestors_with_id), ("chld", v.direct_children_with_id)):
             for x in lst:
                 if not is_current(ns, x):
@@ -62,7 +78,8 @@ def graph(ns, live):
                     bad.append([nid, kind, "object-not-in-model", x.id])
                     continue
                 node[kind].add(x.id)
-    return {k: {"anc": sorted(v["anc"]), "chld": sorted(v["chld"])} for k, v in nodes.items()}, bad
+    return ({k: {"anc": sorted(v["anc"]), "chld": sorted(v["chld"])} for k, v in nodes.items()}, bad,
+            {k: {"anc": sorted(v["anc"]), "chld": sorted(v["chld"])} for k, v in tnodes.items()})
 
 
 def exported_graph(ns, live, model):
@@ -83,13 +100,13 @@ def exported_graph(ns, live, model):
 
 
 def graph_event(ns, tid, seq, live, model, what):
-    nodes, bad = graph(ns, live)
+    nodes, bad, tnodes = graph(ns, live)
     try:
         exp = exported_graph(ns, live, model)
         diff = [k for k in exp if k in nodes and exp[k] != nodes[k]]
     except Exception as ex:   # noqa: an export that fails is an observation
         diff = [f"export raised {type(ex).__name__}: {str(ex)[:100]}"]
-    return {"tid": tid, "seq": seq, "ev": "Graph", "what": what, "nodes": nodes, "detached_refs": bad[:8],
+    return {"tid": tid, "seq": seq, "ev": "Graph", "what": what, "nodes": nodes, "tnodes": tnodes, "detached_refs": bad[:8],
             "export_equal": not diff, "export_diff": diff[:5]}
 
 
@@ -132,7 +149,7 @@ def perturb_events(ns, out, tid, seq, seed, model, inputs, rng=None):
     fresh = efx.build(ns, model)
     names = sorted(efx.reachable(model))
     snap0 = efx.snapshot(ns, fresh, names)
-    nodes_f, _ = graph(ns, fresh)
+    nodes_f, _, _t = graph(ns, fresh)
     ids = {(n, a): f"{a}-in-{fresh[n].id}" for n in names for a in efx.explainable_attrs(ns, fresh[n])
            if a not in efx.BOOKKEEPING}
     for n, a in inputs:
@@ -196,7 +213,7 @@ def run(tier, out):
                         except Exception:
                             pass
             # update order of every input, on the live (edited) system
-            nodes, _bad = graph(ns, h.live)
+            nodes, _bad, _t = graph(ns, h.live)
             for n, a, v in input_values(ns, h.live, h.model):
                 seq += 1
                 chain = []
@@ -219,7 +236,7 @@ def run(tier, out):
             events.append(dict(graph_event(ns, tid, 1000, live, m, "empty-values:" + variant), seed=variant))
         log.close()
         trace = wd + "/c08.ndjson"
-        tracecheck.write_trace(trace, events, keys=("tid", "seq", "ev", "nodes", "detached_refs", "export_equal",
+        tracecheck.write_trace(trace, events, keys=("tid", "seq", "ev", "nodes", "tnodes", "detached_refs", "export_equal",
                                                       "export_diff", "input", "changed", "chain"))
         fails, _n, res2 = tracecheck.validate(wd, "Trace_Graph", trace, {}, timeout=6000)
         out.add_tlc(res2, "Trace_Graph on projected graphs, perturbations and update orders")
